@@ -327,9 +327,29 @@ func oracleC04c(rng *rand.Rand, lg levelGeom, rings [][]ipt, polys []polygonI, m
 	kx1, ky1 := floorDiv(maxx, pix)+3, floorDiv(maxy, pix)+3
 	type loc struct{ x, y int64 }
 	var locs []loc
-	for kx := kx0; kx <= kx1; kx++ {
-		for ky := ky0; ky <= ky1; ky++ {
-			locs = append(locs, loc{kx*pix + pix/2, ky*pix + pix/2}, loc{kx * pix, ky * pix}, loc{kx*pix + pix/4, ky*pix + 3*pix/4})
+	at := func(kx, ky int64) {
+		locs = append(locs, loc{kx*pix + pix/2, ky*pix + pix/2}, loc{kx * pix, ky * pix}, loc{kx*pix + pix/4, ky*pix + 3*pix/4})
+	}
+	if (kx1-kx0+1)*(ky1-ky0+1) <= 1<<16 {
+		for kx := kx0; kx <= kx1; kx++ {
+			for ky := ky0; ky <= ky1; ky++ {
+				at(kx, ky)
+			}
+		}
+	} else {
+		// a very wide polygon: pixels around its vertices and random pixels of the bounding box instead of all of them
+		for _, r := range inRings {
+			for _, p := range r {
+				cx, cy := floorDiv(p.x, pix), floorDiv(p.y, pix)
+				for dx := int64(-3); dx <= 3; dx++ {
+					for dy := int64(-3); dy <= 3; dy++ {
+						at(cx+dx, cy+dy)
+					}
+				}
+			}
+		}
+		for k := 0; k < 4*maxSamples; k++ {
+			at(kx0+rng.Int63n(kx1-kx0+1), ky0+rng.Int63n(ky1-ky0+1))
 		}
 	}
 	rng.Shuffle(len(locs), func(i, j int) { locs[i], locs[j] = locs[j], locs[i] })
